@@ -28,6 +28,7 @@ def _digest_block(prop, lo, hi, vseed=0, replay=True):
     for idx in range(lo, hi):
         rng = random.Random(runner.run_seed(vseed, prop, idx))
         spec = mod.gen(rng, "quick")
+        spec["sim"].pop("calibrate", None)
         r1 = runner.execute(mod, spec)
         if r1.harness_error:
             raise SystemExit("selftest: harness error in %s idx %d: %s" % (prop, idx, r1.harness_error))
